@@ -3,7 +3,7 @@
 import json, os
 from vp import val, coqrun, rustrun
 from vp.val import cN, cZ, cbool, clist, cpair, cbytes
-from gen import c17wire
+from gen import c17wire, c17enum, c17typed
 
 # ---------------------------------------------------------------- constants
 ORIGIN, AS_PATH, NEXTHOP, MED, LOCAL_PREF, ATOMIC, AGGREGATOR, COMMUNITY, ORIGINATOR_ID, CLUSTER_LIST = range(1, 11)
@@ -45,10 +45,11 @@ def wf_attr(a):
             if code == ORIGIN and p[0] > 2: return 'ORIGIN %d > 2' % p[0]
             return None
         if kind != 1: return 'attribute %d not held as Bin' % code
-        if any(not (0 <= x < 256) for x in p): return 'byte outside u8'
-        n = len(p)
+        digest = bool(p) and p[0] == -7       # long values are printed as a digest: only the length is judged here
+        if not digest and any(not (0 <= x < 256) for x in p): return 'byte outside u8'
+        n = p[1] if digest else len(p)
         if n > 65535: return 'value of %d bytes is longer than an attribute can carry' % n
-        if code == AS_PATH and not wf_as_path(p, False): return 'AS_PATH segments malformed'
+        if code == AS_PATH and not digest and not wf_as_path(p, False): return 'AS_PATH segments malformed'
         if code == NEXTHOP and n not in (4, 16): return 'NEXT_HOP length %d' % n
         if code == ATOMIC and n != 0: return 'ATOMIC_AGGREGATE with a value'
         if code == AGGREGATOR and n != 8: return 'AGGREGATOR length %d' % n
@@ -56,18 +57,32 @@ def wf_attr(a):
         if code in (COMMUNITY, CLUSTER_LIST) and n % 4: return 'length %d not a multiple of 4' % n
         if code == EXT_COMMUNITY and n % 8: return 'length %d not a multiple of 8' % n
         if code == LARGE_COMMUNITY and n % 12: return 'length %d not a multiple of 12' % n
-        if code == AS4_PATH and (n % 2 or n < 6 or not wf_as_path(p, False)): return 'AS4_PATH malformed'
+        if code == AS4_PATH and (n % 2 or n < 6 or (not digest and not wf_as_path(p, False))): return 'AS4_PATH malformed'
         if code == AS4_AGGREGATOR and n != 8: return 'AS4_AGGREGATOR length %d' % n
         return None
     if kind != 2: return 'unknown attribute %d not held opaque' % code
     if flags & 0xC0 != 0xC0: return 'unknown attribute %d stored without optional+transitive' % code
+    if p and p[0] == -7:
+        return 'value longer than an attribute can carry' if p[1] > 65535 else None
     if any(not (0 <= x < 256) for x in p): return 'byte outside u8'
     if len(p) > 65535: return 'value longer than an attribute can carry'
     return None
 
+def host_octets(addr_bytes, m):
+    """address octets after the ceil(m / 8) that travel on the wire"""
+    return addr_bytes[(m + 7) // 8:]
+
+def nlri_addr_bytes(n):
+    a = n[1] if n[0] in (4, 6) else n[2] if n[0] in (14, 16) else n[3]
+    return be32(a) if isinstance(a, int) else a
+
 def wf_nlri(n):
     """n as printed by the harness: what the NLRI decoders guarantee"""
     t = n[0]
+    if t in (4, 6, 14, 16, 24, 26):
+        m = n[-1]
+        if m <= (32 if t in (4, 14, 24) else 128) and any(host_octets(nlri_addr_bytes(n), m)):
+            return 'address octets set beyond the %d-bit prefix (no decoder produces them)' % m
     if t == 4: return None if n[2] <= 32 and 0 <= n[1] < 2 ** 32 else 'IPv4 prefix length %d' % n[2]
     if t == 6: return None if n[2] <= 128 else 'IPv6 prefix length %d' % n[2]
     if t in (14, 16):
@@ -93,6 +108,224 @@ def rd_bytes(rd):
     t, a, b = rd
     if t == 0: return [0, 0] + be16(a) + be32(b)
     return [0, t] + be32(a) + be16(b)
+
+# ---- "stored faithfully": the fields of an accepted message are the fields of the stored value
+def api_rd_bytes(d):
+    """the 8 octets an API route distinguisher denotes, or None when a field is out of range / the text is not an address"""
+    if d[0] == 1: return [0, 0] + be16(d[1]) + be32(d[2]) if d[1] < 65536 else None
+    if d[0] == 2:
+        a = py_ip4(d[1])
+        return [0, 1] + be32(a) + be16(d[2]) if a is not None and d[2] < 65536 else None
+    if d[0] == 3: return [0, 2] + be32(d[1]) + be16(d[2]) if d[2] < 65536 else None
+    return None
+
+def py_ip4(bs):
+    try:
+        t = bytes(bs).decode('ascii')
+    except Exception:
+        return None
+    parts = t.split('.')
+    if len(parts) != 4: return None
+    v = 0
+    for q in parts:
+        if not q.isdigit() or len(q) > 3 or (len(q) > 1 and q[0] == '0') or int(q) > 255 or not q.isascii(): return None
+        v = v * 256 + int(q)
+    return v
+
+def unfaithful_attr(x, a):
+    """x: the API message (expanded), a: the stored attribute as printed; why the stored value is not what the message says, or None"""
+    t = x[0]
+    p = a[3]
+    if p and p[0] == -7: return None
+    if t in (2, 5, 6): return None if p == [x[1]] else 'value %d stored as %d' % (x[1], p[0])
+    if t == 8:
+        ip = py_ip4(x[2])
+        return None if ip is not None and p == be32(x[1]) + be32(ip) else 'AGGREGATOR fields differ from the message'
+    if t == 9: return None if p == [b for v in x[1] for b in be32(v)] else 'COMMUNITIES differ from the message'
+    if t == 21: return None if p == [b for tr in x[1] for v in tr for b in be32(v)] else 'LARGE_COMMUNITIES differ from the message'
+    if t == 3:
+        exp = []
+        for ty, nums in x[1]: exp += [ty & 255, len(nums) & 255] + [b for v in nums for b in be32(v)]
+        return None if p == exp and all(0 <= ty < 256 for ty, _ in x[1]) else 'AS_PATH differs from the message'
+    if t == 10:
+        ip = py_ip4(x[1]); return None if ip is not None and p == [ip] else 'ORIGINATOR_ID differs from the message'
+    if t == 11:
+        ips = [py_ip4(sx) for sx in x[1]]
+        return None if None not in ips and p == [b for v in ips for b in be32(v)] else 'CLUSTER_LIST differs from the message'
+    if t == 12:
+        # MP_REACH built from the typed message: [afi:2][safi:1][nh_len:1][next hop][reserved], nh_len 0 only for flowspec
+        if len(p) < 5 or len(p) != 5 + p[3]: return 'MP_REACH header: next-hop length %s does not match the value' % (p[3] if len(p) > 3 else '?')
+        fam = (p[0] << 24) | (p[1] << 16) | p[2]
+        if p[3] == 0 and fam not in (0x10085, 0x20085, 0x10086, 0x20086): return 'MP_REACH without a next hop for a family that needs one'
+        if p[3] not in (0, 4, 16): return 'MP_REACH next-hop length %d' % p[3]
+        if x[1] and (p[0] * 256 + p[1] != x[1][0] or p[2] != x[1][1]): return 'MP_REACH family %d/%d stored as %d/%d' % (x[1][0], x[1][1], p[0] * 256 + p[1], p[2])
+        return None
+    return None
+
+def unfaithful_nlri(x, n):
+    t = x[0]
+    if t == 1: return None if n[2] == x[2] else 'prefix length %d stored as %d' % (x[2], n[2])
+    if t in (2, 3):
+        labels, m = n[1], n[-1]
+        xl, xm = x[1], x[-1]
+        if m != xm: return 'prefix length %d stored as %d' % (xm, m)
+        if labels != xl: return 'labels %s stored as %s' % (xl[:4], labels[:4])
+        if t == 3 and api_rd_bytes(x[2]) != n[2]: return 'route distinguisher of the message stored as other octets'
+    return None
+
+# ---- kind 8: API NLRI of flowspec / SR policy / RTC / MUP
+def xnlri_modelled(c):
+    return c['x'][0] in (10, 11, 12, 13, 14, 15, 16, 17)
+
+def fs_rule_to_coq(r):
+    if r[0] == 0: return 'FRMissing'
+    if r[0] == 1: return '(FRPrefix %s %s %s %s)' % (cN(r[1]), cN(r[2]), cstr(r[3]), cN(r[4]))
+    if r[0] == 2: return '(FRComp %s %s)' % (cN(r[1]), rlist(r[2], lambda o: '(%s, %s)' % (cN(o[0]), cN(o[1]))))
+    return 'FRMac'
+
+def api_rt_to_coq(rt):
+    if not rt: return 'None'
+    if rt[0] == 0: return '(Some RtMissing)'
+    if rt[0] == 1: return '(Some (Rt2 %s %s %s %s))' % (cbool(rt[1]), cN(rt[2]), cN(rt[3]), cN(rt[4]))
+    if rt[0] == 2: return '(Some (RtIp %s %s %s %s))' % (cbool(rt[1]), cN(rt[2]), cstr(rt[3]), cN(rt[4]))
+    return '(Some (Rt4 %s %s %s %s))' % (cbool(rt[1]), cN(rt[2]), cN(rt[3]), cN(rt[4]))
+
+def xnlri_to_coq(c):
+    x, fam = c['x'], c['fam']
+    if x[0] == 10: return 'run_api_fs_case %s (AFs %s)' % (cN(fam), rlist(x[1], fs_rule_to_coq))
+    if x[0] == 11: return 'run_api_fs_case %s (AFsVpn %s %s)' % (cN(fam), api_rd_to_coq(x[1]), rlist(x[2], fs_rule_to_coq))
+    if x[0] == 12: return 'run_api_srp_case %s (ASrP %s %s %s %s)' % (cN(fam), cN(x[1]), cN(x[2]), cN(x[3]), cbytes(x[4]))
+    if x[0] == 13: return 'run_api_rtc_case %s (ARtc %s %s)' % (cN(fam), cN(x[1]), api_rt_to_coq(x[2]))
+    if x[0] == 14: return 'run_api_mup_case %s (AMupIsd %s %s)' % (cN(fam), api_rd_to_coq(x[1]), cstr(x[2]))
+    if x[0] == 15: return 'run_api_mup_case %s (AMupDsd %s %s)' % (cN(fam), api_rd_to_coq(x[1]), cstr(x[2]))
+    if x[0] == 16: return 'run_api_mup_case %s (AMupT1 %s %s %s %s %s %s %s %s)' % (cN(fam), api_rd_to_coq(x[1]), cstr(x[2]), cN(x[3]), cN(x[4]), cN(x[5]), cstr(x[6]), cN(x[7]), cstr(x[8]))
+    if x[0] == 17: return 'run_api_mup_case %s (AMupT2 %s %s %s %s)' % (cN(fam), api_rd_to_coq(x[1]), cN(x[2]), cstr(x[3]), cN(x[4]))
+    raise ValueError(x)
+
+
+# ---- kind 8, tag 18: LsAddrPrefix messages (BGP-LS NLRI from the API side; no model: oracle only)
+LSF = (16388 << 16) | 71
+def _lsn_ip4(b): return c17typed._ip4_ok(b)
+def _lsn_ip6(b): return c17typed._ip6_ok(b)
+
+def _igp_id_ok(b):
+    if _lsn_ip4(b): return True
+    try: t = bytes(b).decode('ascii')
+    except UnicodeDecodeError: return False
+    p = t.split('.')
+    hexok = lambda s, n: len(s) == n and all(ch in '0123456789abcdefABCDEF' for ch in s)     # from_str_radix also takes a leading '+', which len() == n leaves no room for... except "+abc"
+    if len(p) == 3: return all(hexok(q, 4) or (len(q) == 4 and q[0] == '+' and hexok(q[1:], 3)) for q in p)
+    if len(p) == 4: return all(hexok(q, 4) or (len(q) == 4 and q[0] == '+' and hexok(q[1:], 3)) for q in p[:3]) and (hexok(p[3], 2) or (len(p[3]) == 2 and p[3][0] == '+' and hexok(p[3][1:], 1)))
+    return False
+
+def lsn_must_refuse(x):
+    """why an LsAddrPrefix message cannot be stored faithfully (None when it can)"""
+    _, typ, proto, ident, inner = x
+    if not 0 <= proto <= 255: return 'protocol id %d' % proto
+    if inner[0] == 0:
+        return None if 0 <= typ <= 65535 else 'route type %d' % typ
+    nodes = [inner[1]] + ([inner[2]] if inner[0] == 2 else [])
+    for n in nodes:
+        if not n: return None       # refused anyway (missing node)
+        if n[4] and not _igp_id_ok(n[4]): return None      # refused by parse_igp_router_id
+        if n[5] and not _lsn_ip4(n[5]): return None
+    if inner[0] == 2 and inner[3]:
+        d = inner[3]
+        if (d[2] and not _lsn_ip4(d[2])) or (d[3] and not _lsn_ip4(d[3])): return 'link descriptor address that is not an IPv4 address'
+        if (d[4] and not _lsn_ip6(d[4])) or (d[5] and not _lsn_ip6(d[5])): return 'link descriptor address that is not an IPv6 address'
+    if inner[0] in (3, 4) and inner[2]:
+        reach, ort = inner[2]
+        if not 0 <= ort <= 255: return 'OSPF route type %d' % ort
+        w = 32 if inner[0] == 3 else 128
+        for r in reach:
+            try: t = bytes(r).decode('ascii')
+            except UnicodeDecodeError: return 'reachability text'
+            if '/' not in t: return 'reachability entry without a length'
+            a, ln = t.rsplit('/', 1)
+            if not (_lsn_ip4(a.encode()) if w == 32 else _lsn_ip6(a.encode())): return 'reachability address of the wrong family / not an address'
+            if not (ln.lstrip('+').isdigit() and ln.count('+') <= (1 if ln.startswith('+') else 0) and int(ln) <= 255): return 'reachability length text'
+            if int(ln) > w: return 'reachability prefix length %s beyond %d' % (ln, w)
+            import ipaddress
+            v = int(ipaddress.ip_address(a))
+            if v & ((1 << (w - 8 * ((int(ln) + 7) // 8))) - 1): return 'reachability address with octets beyond the prefix length'
+    if inner[0] == 5:
+        if inner[2] and any(not _lsn_ip6(s) for s in inner[2][0]): return 'SRv6 SID that is not an IPv6 address'
+        if inner[3] and any(m > 0xffff for m in inner[3][0]): return 'multi-topology id beyond 16 bits'
+        sids = inner[2][0] if inner[2] else []
+        if inner[3] and inner[3][0] and len(inner[3][0]) != len(sids): return '%d multi-topology ids for %d SIDs' % (len(inner[3][0]), len(sids))
+    return None
+
+def xnlri_known_class(c, obs):
+    """RTC values of the open class C17-rtc (as printed in the wire bytes of the accepted NLRI)"""
+    b = obs[2]
+    if c['x'][0] == 13 and isinstance(b, list) and b and b[0] != -1:
+        if len(b) == 5 and b[0] == 32 and b[1:5] == [0, 0, 0, 0]: return 'C17-rtc'
+        if len(b) == 13 and b[0] == 96 and (b[5] not in (0, 1, 2) or b[6] != 2): return 'C17-rtc'
+    return None
+
+FAM_OF_NLRI = {4: ((1 << 16) | 1, (1 << 16) | 2), 6: ((2 << 16) | 1, (2 << 16) | 2), 14: ((1 << 16) | 4,), 16: ((2 << 16) | 4,),
+               24: ((1 << 16) | 128,), 26: ((2 << 16) | 128,)}
+
+def xnlri_family_wrong(c):
+    """an accepted message of kind 8 whose NLRI cannot belong to the family it was given with"""
+    x, fam = c['x'], c['fam']
+    E = c17enum
+    if x[0] == 10: return fam not in (E.FS4, E.FS6)
+    if x[0] == 11: return fam not in (E.FSV4, E.FSV6)
+    if x[0] == 12: return fam != (E.SR4 if len(x[4]) == 4 else E.SR6)
+    if x[0] == 13: return fam != E.RTCF
+    if x[0] == 18: return fam != E.LSF
+    return fam not in (E.MUP4, E.MUP6)
+
+def xnlri_unfaithful(c, listed):
+    """numeric fields of an accepted flowspec message against the API form listed for the stored value"""
+    x = c['x']
+    if x[0] not in (10, 11) or not isinstance(listed, list) or listed[0] != x[0]: return None
+    mr, lr = x[-1], listed[-1]
+    if len(mr) != len(lr): return 'flowspec: %d rules in the message, %d stored' % (len(mr), len(lr))
+    for a, b in zip(mr, lr):
+        if a[0] != b[0]: return 'flowspec rule kind changed'
+        if a[0] == 1 and (a[1], a[2], a[4] if c['fam'] in (c17enum.FS6, c17enum.FSV6) else 0) != (b[1], b[2], b[4]):
+            return 'flowspec prefix rule (type %d, len %d, offset %d) stored as (%d, %d, %d)' % (a[1], a[2], a[4], b[1], b[2], b[4])
+        if a[0] == 2:
+            if a[1] != b[1] or len(a[2]) != len(b[2]): return 'flowspec component type / operator count changed'
+            for (o1, v1), (o2, v2) in zip(a[2], b[2]):
+                if v1 != v2 or (o1 & 0x4f) != (o2 & 0x4f): return 'flowspec operator (%#x, %d) stored as (%#x, %d)' % (o1, v1, o2, v2)
+    return None
+
+def oracle_xnlri(c, obs):
+    if obs[0] == 0:
+        return None
+    if xnlri_family_wrong(c):
+        return 'an NLRI message was accepted for a family it cannot belong to (afi %d safi %d)' % (c['fam'] >> 16, c['fam'] & 0xffff)
+    why = xnlri_unfaithful(c, obs[5])
+    if why:
+        return 'not stored faithfully: ' + why
+    if c['x'][0] == 17 and isinstance(obs[2], list) and obs[2] and obs[2][0] != -1:
+        x = expand(c['x'])
+        w = 32 if c['fam'] == c17enum.MUP4 else 128
+        want = 4 + 8 + 1 + w // 8 + (x[2] - w + 7) // 8
+        if len(obs[2]) != want:
+            return 'an accepted MUP Type 2 route with endpoint length %d is encoded in %d octets, not %d' % (x[2], len(obs[2]), want)
+    if c['x'][0] == 16 and isinstance(obs[5], list) and obs[5] and obs[5][0] == 16:
+        x = expand(c['x'])
+        if (x[7] == 0 or not x[8]) and (obs[5][7] != 0 or obs[5][8]):
+            return 'not stored faithfully: a MUP Type 1 route given without a source address is listed with one'
+    if c['x'][0] == 18:
+        why = lsn_must_refuse(expand(c['x']))
+        if why:
+            return 'an LsAddrPrefix message that cannot be stored faithfully was accepted: ' + why
+    text = bytes(obs[1]).decode('latin1')[:80]
+    if obs[2] == [-1]: return 'an accepted NLRI panics its encoder: ' + text
+    if obs[3] == [-1]: return 'an accepted NLRI panics the decoder when read back: ' + text
+    if obs[5] == [-1]: return 'an accepted NLRI panics nlri_to_api: ' + text
+    if obs[4] == [-1]: return 'an accepted NLRI panics net_from_api when listed and added again: ' + text
+    cls = xnlri_known_class(c, obs)
+    tag = 'xnlri[%s]: ' % cls if cls else 'xnlri: '
+    if obs[3] != 1: return tag + 'an accepted NLRI does not decode back from its own wire encoding to the same value (not one a decoder can produce): ' + text
+    if obs[4] != 0 and c['x'][0] == 18: tag = 'xnlri[C17-ls-nlri]: '      # the open class: a held BGP-LS NLRI (0 / "" mean absent in the API form)
+    if obs[4] != 0: return tag + 'an accepted NLRI is %s when listed and added again: %s' % ('refused' if obs[4] == 2 else 'changed', text)
+    return None
 
 # ---- EVPN (kinds 6, 7)
 def wf_evpn(e):
@@ -239,24 +472,36 @@ def extcom_to_coq(x):
     if t == 11: return '(XRedirect4 %s %s)' % (cN(x[1]), cN(x[2]))
     return 'XUnsupported'
 
+def is_rep(l): return isinstance(l, list) and len(l) == 3 and l[0] == 'rep'
+
+def expand(x):
+    """['rep', item, n] -> n copies of item, recursively"""
+    if isinstance(x, list):
+        if is_rep(x): return [expand(x[1])] * x[2]
+        return [expand(y) for y in x]
+    return x
+
+def rlist(l, render):
+    if is_rep(l): return '(N.iter %d%%N (cons %s) [])' % (l[2], render(l[1]))
+    return clist([render(y) for y in l])
+
 def api_to_coq(x):
     t = x[0]
     if t == 0: return 'AMissing'
-    if t == 1: return '(AUnknown %s %s %s)' % (cN(x[1]), cN(x[2]), cbytes(x[3]))
+    if t == 1: return '(AUnknown %s %s %s)' % (cN(x[1]), cN(x[2]), rlist(x[3], cN))
     if t == 2: return '(AOrigin %s)' % cN(x[1])
-    if t == 3: return '(AAsPath %s)' % clist(['(%s, %s)' % (cZ(s[0]), clist([cN(n) for n in s[1]])) for s in x[1]])
+    if t == 3: return '(AAsPath %s)' % rlist(x[1], lambda s: '(%s, %s)' % (cZ(s[0]), rlist(s[1], cN)))
     if t == 4: return '(ANextHop %s)' % cstr(x[1])
     if t == 5: return '(AMed %s)' % cN(x[1])
     if t == 6: return '(ALocalPref %s)' % cN(x[1])
     if t == 7: return 'AAtomicAggregate'
     if t == 8: return '(AAggregator %s %s)' % (cN(x[1]), cstr(x[2]))
-    if t == 9:
-        if x[1] and x[1][0] == 'rep': return '(ACommunities (repeat %s %d))' % (cN(x[1][1]), x[1][2])
-        return '(ACommunities %s)' % clist([cN(n) for n in x[1]])
+    if t == 9: return '(ACommunities %s)' % rlist(x[1], cN)
     if t == 10: return '(AOriginatorId %s)' % cstr(x[1])
-    if t == 11: return '(AClusterList %s)' % clist([cstr(s) for s in x[1]])
-    if t == 14: return '(AExtCommunities %s)' % clist([extcom_to_coq(e) for e in x[1]])
-    if t == 21: return '(ALargeCommunities %s)' % clist(['(%s, %s, %s)' % (cN(a), cN(b), cN(c)) for a, b, c in x[1]])
+    if t == 11: return '(AClusterList %s)' % rlist(x[1], cstr)
+    if t == 14: return '(AExtCommunities %s)' % rlist(x[1], extcom_to_coq)
+    if t == 21: return '(ALargeCommunities %s)' % rlist(x[1], lambda t3: '(%s, %s, %s)' % (cN(t3[0]), cN(t3[1]), cN(t3[2])))
+    if t == 12: return '(AMpReach %s %s)' % ('(Some (%s, %s))' % (cN(x[1][0]), cN(x[1][1])) if x[1] else 'None', clist([cstr(n) for n in x[2]]))
     return 'AOther'
 
 def v6bytes(a): return [(a >> (8 * (15 - k))) & 255 for k in range(16)]
@@ -294,7 +539,7 @@ def api_nlri_to_coq(x):
     if x[0] == 3: return '(PVpn %s %s %s %s)' % (clist([cN(l) for l in x[1]]), api_rd_to_coq(x[2]), cstr(x[3]), cN(x[4]))
     return 'POther'
 
-API_NAMES = {0: 'missing', 1: 'unknown', 2: 'origin', 3: 'as_path', 4: 'next_hop', 5: 'med', 6: 'local_pref',
+API_NAMES = {12: 'mp_reach', 0: 'missing', 1: 'unknown', 2: 'origin', 3: 'as_path', 4: 'next_hop', 5: 'med', 6: 'local_pref',
              7: 'atomic_aggregate', 8: 'aggregator', 9: 'communities', 10: 'originator_id', 11: 'cluster_list',
              14: 'ext_communities', 21: 'large_communities', 99: 'other'}
 
@@ -446,6 +691,9 @@ def gen_nlri_case(rng):
     else:
         m = rng.choice([0, 1, 32, 48, 64, 127, 128]) if not bad else rng.choice([129, 200, 255])
         a = v6_rand(rng)
+    if rng.random() < 0.9 and m <= (32 if t in (4, 14, 24) else 128):
+        w = 4 if t in (4, 14, 24) else 16
+        a = a >> (8 * (w - (m + 7) // 8)) << (8 * (w - (m + 7) // 8))
     if t in (4, 6): return {'k': 3, 'n': [t, a, m]}
     nl = rng.choice([1, 1, 2, 3, 5]) if not bad else rng.choice([0, 11])
     if t in (24, 26) and not bad: nl = rng.choice([1, 1, 2]) if m > 100 else nl
@@ -483,6 +731,60 @@ def gen_local_path_case(rng):
             if a[0] == 9 and a[1] and a[1][0] == 'rep': a = [9, [1, 2]]
         attrs.append(a)
     return {'k': 5, 'fam': fam, 'nlri': n, 'attrs': attrs, 'id': rng.choice([0, 1, 7, 2 ** 32 - 1])}
+
+def gen_xnlri_case(rng):
+    """random API NLRI messages of the flowspec / SR policy / RTC / MUP families (kind 8, oracle only)"""
+    E = c17enum
+    t = rng.choice([10, 10, 10, 11, 12, 13, 14, 15, 16, 17])
+    rdv = gen_api_rd(rng) if rng.random() < 0.3 else [1, 65000, 1]
+    def rules(v6):
+        out = []
+        for ty in sorted(rng.sample(range(1, 14 if v6 else 13), rng.choice([1, 1, 2, 3, 5]))):
+            if ty in (1, 2):
+                w = 128 if v6 else 32
+                m = rng.choice([0, 8, 16, 24, w]) if rng.random() < 0.85 else rng.choice([w + 1, 255, 256, 300])
+                base = rng.choice(['2001:db8::', '::', 'ff00::']) if v6 else rng.choice(['10.0.0.0', '0.0.0.0', '192.168.0.0', '10.1.2.3'])
+                out.append([1, ty, m, S(base), rng.choice([0, 0, 8, 255, 256]) if v6 else 0])
+            else:
+                n = rng.choice([1, 1, 2, 3, 0])
+                ops = [[rng.choice([0x01, 0x02, 0x03, 0x05, 0x41, 0x45, 0x11, 0x100]), rng.choice([0, 6, 17, 255, 256, 65535, 65536, 2 ** 32, 2 ** 64 - 1])] for _ in range(n)]
+                x = rng.random()
+                if ops and x < 0.6: ops[-1][0] |= 0x80
+                elif ops and x < 0.7: ops[0][0] |= 0x80
+                out.append([2, ty, ops])
+        if rng.random() < 0.05: out.append(rng.choice([[0], [3], [2, 99, [[0x81, 1]]]]))
+        return out
+    if t in (10, 11):
+        fam = rng.choice([E.FS4, E.FS6] if t == 10 else [E.FSV4, E.FSV6])
+        if rng.random() < 0.08: fam = rng.choice([E.V4U, E.FS4, E.FS6, E.FSV4, E.FSV6])
+        v6 = fam in (E.FS6, E.FSV6)
+        x = [10, rules(v6)] if t == 10 else [11, rdv, rules(v6)]
+    elif t == 12:
+        v6 = rng.random() < 0.5
+        fam = E.SR6 if v6 else E.SR4
+        if rng.random() < 0.1: fam = rng.choice([E.SR4, E.SR6, E.V4U])
+        x = [12, rng.choice([96, 192, 0]), u32(rng), u32(rng), [rng.randrange(256) for _ in range(rng.choice([4, 16] if rng.random() < 0.9 else [0, 5, 32]))]]
+    elif t == 13:
+        fam = E.RTCF
+        rt = rng.choice([[], [], [1, 1, 2, rng.choice([0, 65000, 65535, 65536]), u32(rng)], [2, 1, 2, ip4str(rng, 0.1), rng.choice([0, 65535, 65536])],
+                         [3, 1, 2, u32(rng), rng.choice([0, 65535, 65536])], [1, 0, 2, 1, 1], [1, 1, 3, 1, 1], [0]])
+        x = [13, rng.choice([0, 1, 65001, 2 ** 32 - 1]), rt]
+    else:
+        v6 = rng.random() < 0.5
+        fam = E.MUP6 if v6 else E.MUP4
+        if rng.random() < 0.1: fam = rng.choice([E.MUP4, E.MUP6, E.V4U])
+        w = 128 if v6 else 32
+        p = rng.choice(['2001:db8::', '::', '2001:db8::1']) if v6 else rng.choice(['10.0.0.0', '0.0.0.0', '10.0.0.1'])
+        a = rng.choice(['2001:db8::1', '::1']) if v6 else rng.choice(['192.0.2.1', '10.0.0.1'])
+        pl = rng.choice([0, 8, 24, w]) if rng.random() < 0.85 else rng.choice([w + 1, 255, 256])
+        if t == 14: x = [14, rdv, S('%s/%d' % (p, pl))]
+        elif t == 15: x = [15, rdv, S(a)]
+        elif t == 16: x = [16, rdv, S('%s/%d' % (p, pl)), u32(rng), rng.choice([0, 9, 255, 256]), w, S(a), rng.choice([0, w]), S(rng.choice(['', a]))]
+        else:
+            el = rng.choice([w, w + 8, w + 16, w + 32]) if rng.random() < 0.8 else rng.choice([0, w - 1, w + 33, 255, 256])
+            teid = u32(rng) if rng.random() < 0.4 else (u32(rng) >> (32 - min(32, max(0, el - w)))) << (32 - min(32, max(0, el - w))) if el > w else 0
+            x = [17, rdv, el, S(a), teid & 0xffffffff]
+    return {'k': 8, 'fam': fam, 'x': x}
 
 def gen_extcom_api(rng):
     t = rng.choice([1, 1, 2, 2, 3, 3, 4, 5, 6, 7, 8, 9, 10, 11, 0, 99])
@@ -558,7 +860,9 @@ def gen_api_case(rng, variant=None):
 class Prop:
     pid = 'C17'
     props_file = 'Props/C17.v'
-    required_theorems = ['attr_roundtrip_up_to_flags', 'attr_roundtrip_core_outside_known', 'attr_roundtrip_core_refuted', 'from_api_total', 'from_api_preserves_wf', 'wire_values_are_wf', 'wf_is_safe_downstream', 'api_accepted_is_safe', 'nlri_roundtrip_core', 'net_from_api_preserves_wf', 'nlri_encode_safe', 'local_path_accepts_wf', 'evpn_roundtrip', 'evpn_from_api_preserves_wf', 'noncore_roundtrip_guarded', 'noncore_typed_from_api_wf']
+    required_theorems = ['attr_roundtrip_up_to_flags', 'attr_roundtrip_core_outside_known', 'attr_roundtrip_core_refuted', 'from_api_total', 'from_api_preserves_wf', 'wire_values_are_wf', 'wf_is_safe_downstream', 'api_accepted_is_safe', 'nlri_roundtrip_core', 'net_from_api_preserves_wf', 'nlri_encode_safe', 'local_path_accepts_wf', 'evpn_roundtrip', 'evpn_from_api_preserves_wf', 'noncore_roundtrip_guarded', 'noncore_typed_from_api_wf', 'flowspec_roundtrip', 'flowspec_from_api_preserves_wf', 'srpolicy_roundtrip_and_wf', 'rtc_roundtrip_outside_known', 'rtc_roundtrip_refuted', 'rtc_from_api_preserves_wf',
+                         'typed_from_api_total', 'prefix_sid_accepted_wf', 'prefix_sid_roundtrip', 'tunnel_encap_accepted_wf', 'tunnel_encap_roundtrip',
+                         'mup_roundtrip', 'mup_from_api_preserves_wf']
     correspondence_name = ('Model/Api.v (wire_accept, to_api, from_api, net_from_api, nlri_to_api, local_path, as_path_length, encode_attr, rib_cmp, encode_nlri) vs '
                            'daemon/src/convert.rs attr_to_api / attr_from_api / nlri_to_api / net_from_api, event/grpc.rs GrpcService::local_path, '
                            'packet Attribute::{decode via PeerCodec::parse_message, as_path_length, encode_to_bytes}, Nlri::encode_to_bytes, '
@@ -567,7 +871,17 @@ class Prop:
             '(1) one API attribute message through attr_from_api, then as_path_length / encode / attr_to_api / Table::insert next to a competitor path; '
             '(2) one API NLRI message through net_from_api, then Nlri::encode; (3) one internal IPv4/IPv6/labeled NLRI through nlri_to_api / net_from_api; '
             '(5) a whole api::Path through GrpcService::local_path, then Table::insert; (6) one API EVPN message through net_from_api, checked to decode back from its own wire encoding; '
-            '(7) one internal EVPN route through nlri_to_api / net_from_api; these seven kinds are modelled and compared with the model value for value. '
+            '(7) one internal EVPN route through nlri_to_api / net_from_api; (8) one API NLRI message of the flowspec (plain / VPN), SR Policy, RTC and MUP families through net_from_api and the family check of local_path, '
+            'then Nlri::encode, the repository decoder on those bytes (must give the accepted value back), nlri_to_api and net_from_api again; flowspec / SR Policy / RTC / MUP are modelled (accepted?, wire bytes, listed form compared); LsAddrPrefix (BGP-LS) messages go the same way and are judged by the oracle only (every field within its wire width or refused, decodes back; relisting is inside the open class C17-ls-nlri); '
+            '(9) one typed PrefixSid, TunnelEncap or LsAttribute message through attr_from_api, then the packet decoder on the stored value, attr_to_api and attr_from_api again: PrefixSid and TunnelEncap are modelled (accepted?, value octets, listing compared; '
+            'a PrefixSid message whose prost maps hold several keys is compared on accepted? only, their iteration order is not fixed) and judged by a normal-form oracle (refused, or listed as given); the LsAttribute message is NOT modelled and judged by the oracle only (every field within its wire width or refused, decoder reads the value back, relists unchanged); '
+            'gen/c17typed.py ENUMERATES 74 further classes (696 cases: every oneof unset, every bounded field at bound and bound + 1, SID lengths 0/4/15/16/17, every flag alone, each one-per-path sub-TLV twice, '
+            'names around the two-octet length, values around 65535 octets, tunnel types around u16; LS attribute: SR ranges around the 20-bit label / 24-bit size / u32 wrap, delays and IGP metric around 24 bits, labels around 20 bits, weights / flags / algorithms around 255, every address spelling, 0/1/7/8/9 unreserved-bandwidth values); '
+            'these kinds are modelled and compared with the model value for value. '
+            'gen/c17enum.py ENUMERATES 137 classes (about 4400 cases) on every run, one per clause / branch / comparison of the anchored functions with values on both sides of each boundary '
+            '(every flags octet; value lengths around each type rule; segment counts 0/1/63/64/65/127/128/129/254/255/256/257 with AS numbers whose octets look like segment headers; 255/256 and 65535/65536-octet values; '
+            'every extended-community type octet x sub-type x reserved-bit pattern; every bounded API field at bound and bound+1; every IPv4/IPv6/MAC spelling; label stacks and prefix lengths around the one-octet NLRI length; '
+            'flowspec rule bodies of 239/240/241 and 4095/4096/4097 octets; MP_REACH header lengths; address-family edges); they are tagged enum:<class> in input_distribution. '
             '(4) the wide part: a whole UPDATE of any of 19 address families with any attribute kinds (tunnel-encap, prefix-SID, BGP-LS, AIGP, AS4_*, unknown), '
             'every decoded attribute and NLRI round-tripped through the API form; NOT modelled, judged by the Spec oracle only (canon maps its observation to []), '
             'so it adds to "evaluations" and "traces_validated_against_impl" without being a model comparison: see input_distribution tags wide:*. '
@@ -585,10 +899,14 @@ class Prop:
         '(uint32 fields below 2^32: api_in_range) are modelled by hand from their documentation; bit tests on u8 values are written arithmetically in the model',
         'what is modelled of attr_to_api / attr_from_api is the core: ORIGIN, AS_PATH, NEXT_HOP, MED, LOCAL_PREF, ATOMIC_AGGREGATE, AGGREGATOR, COMMUNITIES, ORIGINATOR_ID, '
         'CLUSTER_LIST, EXTENDED_COMMUNITIES (all twelve variants of read_extcom/write_extcom), LARGE_COMMUNITIES, Unknown (incl. MP_REACH/MP_UNREACH/AS4_PATH/AS4_AGGREGATOR/AIGP '
-        'and opaque); NLRI: Prefix, LabeledPrefix, LabeledVPNIPPrefix arms and the five EVPN route types (RD, ESI, MAC and IP address text). '
-        'For TUNNEL_ENCAP, PREFIX_SID and the BGP-LS attribute only the lossless-or-raw wrapper of attr_to_api is modelled (theorems noncore_*): the typed TLV converters are uninterpreted '
-        'functions there, so the round trip is proved for whatever they compute but a panic inside them, and what the typed form looks like, is covered by the wide differential part only; '
-        'the MpReach message and the flowspec / MUP / SR-policy / RTC / BGP-LS NLRI families are covered by the wide differential part only (sampling, no proof): the property is claimed partial for them',
+        'opaque and the typed MpReach message); NLRI: Prefix, LabeledPrefix, LabeledVPNIPPrefix arms, the five EVPN route types (RD, ESI, MAC and IP address text), flowspec (plain and VPN, both IP versions: '
+        'prefix and operator components, operator framing bits, 12-bit length), SR Policy and Route Target Constraint, each with its wire encoding. '
+        'For TUNNEL_ENCAP and PREFIX_SID the typed messages are modelled from the API side (prefix_sid_from_api / tunnel_encap_tlv_from_api, the encoders of packet/src/prefix_sid.rs and packet/src/tunnel_encap.rs, '
+        'and the typed listing on the stored tree: theorems typed_from_api_total, prefix_sid_*, tunnel_encap_*); their wire DECODERS are not modelled: that the decoder reads the stored value back is an observation of the harness judged by the oracle, '
+        'and the one place where the listing depends on the decoder (a type B segment structure is read only under flag 0x40) enters the model as a stated rule of seg_to_api; std::str::from_utf8 is the Gallina function utf8_valid (compared, not proved). '
+        'For these two and the BGP-LS attribute the lossless-or-raw wrapper of attr_to_api is modelled with the typed converters as uninterpreted functions (theorems noncore_*); the typed BGP-LS attribute message (ls_tlvs_from_api) is NOT modelled: it is exercised from the API side by kind 9 with the oracle alone, and from the wire side by the wide differential part; '
+        'MUP NLRI (four route types, prefix text with rsplit_once / u8::from_str, Type 2 endpoint-length rule, encoding) is modelled from the API side; its wire decoder is not (the harness checks that the decoder gives the accepted value back). '
+        'The BGP-LS NLRI family is not modelled; it is reached from the wire side by the wide differential part only (sampling, no proof): the property is claimed partial for it',
         'the wire decoder is modelled only as far as C17 needs it (Attribute::decode in four-octet-AS form and the per-attribute admission of the UPDATE arm); '
         'two-octet-AS sessions, treat-as-withdraw and NLRI decoding are exercised by the wide part only',
         'the comparator is modelled for one comparison between paths of two sources of equal role that are not stale (what Table::insert does against a destination holding one path); '
@@ -615,15 +933,13 @@ class Prop:
     # ---- rendering
     def case_to_val(self, c):
         if c['k'] == 0: return [0, c['flags'], c['code'], c['data']]
-        if c['k'] == 1:
-            x = c['api']
-            if x[0] == 9 and x[1] and x[1][0] == 'rep':
-                x = [9, [x[1][1]] * x[1][2]]
-            return [1, x]
+        if c['k'] == 1: return [1, expand(c['api'])]
         if c['k'] == 2: return [2, c['api']]
         if c['k'] == 3: return [3, nlri_to_valx(c['n'], out=False)]
         if c['k'] == 4: return [4, c['opts'], c['msg']]
-        if c['k'] == 5: return [5, c['fam'], c['nlri'], c['attrs'], c['id']]
+        if c['k'] == 5: return [5, c['fam'], c['nlri'], expand(c['attrs']), c['id']]
+        if c['k'] == 8: return [8, c['fam'], expand(c['x'])]
+        if c['k'] == 9: return [9, c['w'], expand(c['msg'])]
         if c['k'] == 6: return [6, c['api']]
         if c['k'] == 7: return [7, evpn_to_valx(c['e'], out=False)]
         raise ValueError(c)
@@ -634,6 +950,8 @@ class Prop:
         if c['k'] == 2: return 'run_api_nlri_case Debug %s' % api_nlri_to_coq(c['api'])
         if c['k'] == 3: return 'run_nlri_case %s' % nlri_to_coq(c['n'])
         if c['k'] == 4: return '(VL [])'     # the wide part has no model: judged by the oracle only
+        if c['k'] == 8: return xnlri_to_coq(c) if xnlri_modelled(c) else '(VL [])'
+        if c['k'] == 9: return c17typed.typed_to_coq(c)
         if c['k'] == 6: return 'run_api_evpn_case %s' % api_evpn_to_coq(c['api'])
         if c['k'] == 7: return 'run_evpn_case %s' % evpn_to_coq(c['e'])
         if c['k'] == 5:
@@ -643,7 +961,7 @@ class Prop:
 
     # ---- generation
     def gen_cases(self, rng, tier):
-        cases = []
+        cases = c17enum.enum_all() + c17typed.enum_typed()      # the classes enumerated on every run come first
         nw, na = (900, 1300) if tier == 'quick' else (9000, 13000)
         for code in WIRE_CODES + WIRE_SPECIAL + UNKNOWN_CODES[:6]:
             for _ in range(6):
@@ -661,6 +979,10 @@ class Prop:
                 cases.append(gen_api_case(rng, v))
         for _ in range(na):
             cases.append(gen_api_case(rng))
+        for _ in range(400 if tier == 'quick' else 4000):
+            cases.append(c17typed.gen_typed_case(rng))
+        for _ in range(150 if tier == 'quick' else 1500):
+            cases.append(c17enum.gen_ls_nlri_case(rng))
         nn = 500 if tier == 'quick' else 5000
         for _ in range(nn):
             cases.append(gen_api_nlri_case(rng))
@@ -676,6 +998,8 @@ class Prop:
         for _ in range(nn):
             cases.append(gen_api_evpn_case(rng))
             cases.append(gen_evpn_case(rng))
+        for _ in range(nn):
+            cases.append(gen_xnlri_case(rng))
         for m in GOOD_MAC + BAD_MAC:
             cases.append({'k': 6, 'api': [2, [1, 65000, 1], [0, [0] * 9], 0, S(m), [], [100]]})
         # wide differential part: whole UPDATEs of every family / attribute kind (oracle only)
@@ -706,8 +1030,12 @@ class Prop:
         return coqrun.eval_terms('C17', pre, [self.case_to_coq(c) for c in cases])
 
     def canon(self, case, obs):
-        if case['k'] == 4:
+        if case['k'] == 9:
+            return c17typed.typed_canon(case, obs)
+        if case['k'] == 4 or (case['k'] == 8 and not xnlri_modelled(case)):
             return []       # not modelled (differential testing of the real round trip only)
+        if case['k'] == 8 and len(obs) == 6:
+            return [obs[0], obs[2], obs[3], obs[4], obs[5]]     # accepted, wire bytes, decodes back, relisted, API form listed
         return obs
 
     # ---- Spec oracle on the implementation's observations
@@ -739,10 +1067,15 @@ class Prop:
             why = wf_attr(a)
             if why:
                 return 'attr_from_api accepted a value outside the wire invariants: code %d: %s' % (a[0], why)
-            names = ['as_path_length', 'encode', 'attr_to_api (listing)', 'Table::insert / comparison']
+            names = ['as_path_length', 'encode', 'attr_to_api (listing)', 'Table::insert / comparison', 'attr_to_api / attr_from_api of the accepted value']
             for k, d in enumerate(ds):
                 if d == [-1]:
                     return 'accepted value (code %d) panics %s' % (a[0], names[k])
+            if len(ds) > 4 and ds[4] != 0:
+                return 'a value accepted through the API (code %d) is %s when listed and added again' % (a[0], 'refused' if ds[4] == 2 else 'changed')
+            why = unfaithful_attr(expand(c['api']), a)
+            if why:
+                return 'not stored faithfully: ' + why
             return None
         if c['k'] == 2:
             if obs[0] == 0:
@@ -752,6 +1085,11 @@ class Prop:
                 return 'net_from_api accepted an NLRI outside the wire invariants: ' + why
             if obs[2] == [-1]:
                 return 'accepted NLRI panics the encoder'
+            if len(obs) > 3 and obs[3] != [1, obs[1]]:
+                return 'an NLRI accepted through the API is %s when listed and added again' % ('refused' if obs[3] == [0] else 'changed')
+            why = unfaithful_nlri(c['api'], obs[1])
+            if why:
+                return 'not stored faithfully: ' + why
             return None
         if c['k'] == 4:
             if obs[0] == 0:
@@ -775,6 +1113,10 @@ class Prop:
             for cls, txt in fails:
                 return 'wide[%s]: %s' % (cls, txt)
             return None
+        if c['k'] == 8:
+            return oracle_xnlri(c, obs)
+        if c['k'] == 9:
+            return c17typed.oracle_typed(c, obs)
         if c['k'] == 6:
             if obs[0] == 0:
                 return None
@@ -787,6 +1129,8 @@ class Prop:
             x, e = c['api'], obs[1]
             if x[2] and e[0] in (1, 2, 4, 5) and e[2][0] != x[2][0]:
                 return 'ESI type %d of the message stored as %d' % (x[2][0], e[2][0])
+            if api_rd_bytes(x[1]) != e[1]:
+                return 'not stored faithfully: route distinguisher of the message stored as other octets'
             if e[0] == 2 and len(x[6]) != 1 + len(e[7]):
                 return 'MAC/IP route: %d labels in the message, %d stored' % (len(x[6]), 1 + len(e[7]))
             return None
@@ -803,6 +1147,8 @@ class Prop:
             why = wf_nlri(obs[2])
             if why:
                 return 'local_path accepted an NLRI outside the wire invariants: ' + why
+            if obs[2][0] in FAM_OF_NLRI and obs[1] not in FAM_OF_NLRI[obs[2][0]]:
+                return 'local_path accepted an NLRI that does not belong to the path family (afi %d safi %d)' % (obs[1] >> 16, obs[1] & 0xffff)
             for a in obs[4]:
                 why = wf_attr(a)
                 if why:
@@ -826,6 +1172,8 @@ class Prop:
     def in_known_class(self, kf, c, obs, why):
         if c['k'] == 4:
             return why.startswith('wide[%s]:' % kf['id'])
+        if c['k'] == 8:
+            return why.startswith('xnlri[%s]:' % kf['id'])
         if kf['id'] == 'C17-flags':
             # a held attribute of a defined type whose stored flags are not the canonical ones
             return c['k'] == 0 and obs[0] == 1 and obs[1][0] in CANON and obs[1][1] != CANON[obs[1][0]] \
@@ -835,7 +1183,7 @@ class Prop:
     def nontrivial_key(self, c, obs):
         if obs == [-1] or not obs:
             return None
-        if c['k'] in (0, 1, 2, 5, 6) and obs[0] == 1:
+        if c['k'] in (0, 1, 2, 5, 6, 8, 9) and obs[0] == 1:
             return json.dumps(self.case_to_val(c))
         if c['k'] == 7 and not wf_evpn(evpn_to_valx(c['e'])):
             return json.dumps(self.case_to_val(c))
@@ -846,6 +1194,9 @@ class Prop:
         return None
 
     def classify(self, c, obs):
+        return (['enum:' + c['cls']] if 'cls' in c else []) + self._classify(c, obs)
+
+    def _classify(self, c, obs):
         if c['k'] == 0:
             kind = 'known' if c['code'] in CANON else 'unknown'
             return ['wire', 'wire:%s:%s' % (kind, 'held' if obs and obs[0] == 1 else 'not_held'),
@@ -863,6 +1214,10 @@ class Prop:
             return ['api_evpn', 'api_evpn:type%d:%s' % (c['api'][0], st)]
         if c['k'] == 7:
             return ['evpn', 'evpn:type%d' % c['e'][0]]
+        if c['k'] == 8:
+            return ['xnlri', 'xnlri:%s:%s' % ({10: 'flowspec', 11: 'flowspec_vpn', 12: 'srpolicy', 13: 'rtc', 14: 'mup_isd', 15: 'mup_dsd', 16: 'mup_t1st', 17: 'mup_t2st', 18: 'ls_nlri'}.get(c['x'][0]), 'accepted' if obs and obs[0] == 1 else 'refused')]
+        if c['k'] == 9:
+            return ['typed', 'typed:%s:%s' % ({0: 'prefix_sid', 1: 'tunnel_encap', 2: 'ls_attribute'}[c['w']], 'accepted' if obs and obs[0] == 1 else 'refused')]
         if c['k'] == 5:
             return ['local_path', 'local_path:%s:attrs_%d' % ('accepted' if obs and obs[0] == 1 else 'rejected', min(len(c['attrs']), 4))]
         if c['k'] == 4:
